@@ -1341,6 +1341,7 @@ impl<'bump, T: 'bump> Vec<'bump, T> {
             del: 0,
             old_len,
             pred: filter,
+            panic_flag: false,
         }
     }
 
@@ -2693,6 +2694,8 @@ where
     del: usize,
     old_len: usize,
     pred: F,
+    /// Set while the predicate runs; still set afterwards iff it panicked.
+    panic_flag: bool,
 }
 
 impl<'a, 'bump, T, F> Iterator for DrainFilter<'a, 'bump, T, F>
@@ -2705,9 +2708,16 @@ where
         unsafe {
             while self.idx != self.old_len {
                 let i = self.idx;
-                self.idx += 1;
                 let v = slice::from_raw_parts_mut(self.vec.as_mut_ptr(), self.old_len);
-                if (self.pred)(&mut v[i]) {
+                self.panic_flag = true;
+                let drained = (self.pred)(&mut v[i]);
+                self.panic_flag = false;
+                // Update the index *after* the predicate is called. If the
+                // index were updated before and the predicate panicked, the
+                // element at this index would count as processed although
+                // it was neither kept nor handed out.
+                self.idx += 1;
+                if drained {
                     self.del += 1;
                     return Some(ptr::read(&v[i]));
                 } else if self.del > 0 {
@@ -2734,8 +2744,21 @@ where
     F: FnMut(&mut T) -> bool,
 {
     fn drop(&mut self) {
-        self.for_each(drop);
+        // Do not call the predicate again if it already panicked: shift the
+        // unprocessed tail down over the hole left by the drained elements
+        // instead, so that no slot below the new length holds a moved-out
+        // value (which would be dropped twice).
+        if !self.panic_flag {
+            self.for_each(drop);
+        }
         unsafe {
+            if self.idx < self.old_len && self.del > 0 {
+                let ptr = self.vec.as_mut_ptr();
+                let src = ptr.add(self.idx);
+                let dst = src.sub(self.del);
+                let tail_len = self.old_len - self.idx;
+                ptr::copy(src, dst, tail_len);
+            }
             self.vec.set_len(self.old_len - self.del);
         }
     }
